@@ -668,4 +668,329 @@ theorem verbatim_unspellable (cfg : LexCfg) (hr : NoQuotedRule cfg) : ¬ ∃ c, 
 example : badRun false ['a', '\\', '\\', '`'] = false ∧ badRun false ['\\', '`'] = true ∧
     badRun false ['\\', '\n'] = true ∧ badRun false ['\\', 'n'] = false ∧ badRun false ['\\', '\\', '\\'] = true := by decide
 
+/-! every configuration built from an operator table satisfies `NoQuotedRule` -/
+
+theorem mem_insertBy {α} (le : α → α → Bool) (x y : α) : ∀ (l : List α), y ∈ insertBy le x l → y = x ∨ y ∈ l
+  | [], h => by simpa [insertBy] using h
+  | z :: zs, h => by
+      simp only [insertBy] at h
+      split at h
+      · simpa using h
+      · rcases List.mem_cons.mp h with rfl | h'
+        · simp
+        · rcases mem_insertBy le x y zs h' with e | e
+          · exact Or.inl e
+          · exact Or.inr (List.mem_cons_of_mem _ e)
+
+theorem mem_sortBy {α} (le : α → α → Bool) (y : α) : ∀ (l : List α), y ∈ sortBy le l → y ∈ l
+  | [], h => by simpa [sortBy] using h
+  | x :: xs, h => by
+      have h' : y ∈ insertBy le x (sortBy le xs) := by simpa [sortBy] using h
+      rcases mem_insertBy le x y _ h' with e | e
+      · simp [e]
+      · exact List.mem_cons_of_mem _ (mem_sortBy le y xs e)
+
+theorem opRulesFrom_kind : ∀ (ops : List (List Char)) (i : Nat) (r : StrRule), r ∈ opRulesFrom i ops → r.kind ≠ .quoted
+  | [], _, _, h => by simp [opRulesFrom] at h
+  | s :: ops, i, r, h => by
+      simp only [opRulesFrom, List.mem_cons] at h
+      rcases h with rfl | h
+      · simp
+      · exact opRulesFrom_kind ops (i + 1) r h
+
+theorem noQuotedRule_ofTable (chars : CharCfg) (ops : List (List Char)) (hasIndexer hasMap : Bool)
+    (nvo : Option (List Char)) (names : List Char → Option Char) (maxDigits : Nat) :
+    NoQuotedRule (LexCfg.ofTable chars ops hasIndexer hasMap nvo names maxDigits) := by
+  intro r hr
+  simp only [LexCfg.ofTable, mkRules] at hr
+  have := mem_sortBy _ r _ (mem_sortBy _ r _ hr)
+  simp only [List.mem_append] at this
+  rcases this with ((h | h) | h) | h
+  · cases hasIndexer <;> simp at h; subst h; simp
+  · cases hasMap <;> simp at h; subst h; simp
+  · cases nvo <;> simp at h; subst h; simp
+  · exact opRulesFrom_kind ops 1 r h
+
+/-! ## C16.int_literal, C16.dot_means_float -/
+
+def AllDigits (cc : CharCfg) (ds : List Char) : Prop := ∀ d ∈ ds, cc.isDigit d = true
+
+theorem digit_ne_nonword (cc : CharCfg) {d x : Char} (hd : cc.isDigit d = true) (hx : x ∈ nonWordChars) : d ≠ x :=
+  word_ne_of_nonword cc (cc.digit_word d hd) hx
+
+theorem dot_not_digit (cc : CharCfg) : cc.isDigit '.' = false :=
+  nonword_not_digit cc (cc.nonword '.' (by decide))
+
+theorem matchNumber_int (cc : CharCfg) {ds : List Char} (hne : ds ≠ []) (hd : AllDigits cc ds) :
+    matchNumber cc false ds = some ⟨ds, none⟩ := by
+  have h1 : ds.takeWhile cc.isDigit = ds := takeWhile_all hd
+  have h2 : ds.dropWhile cc.isDigit = [] := dropWhile_all hd
+  have h3 : ds.isEmpty = false := by cases ds with
+    | nil => exact absurd rfl hne
+    | cons _ _ => rfl
+  simp [matchNumber, h1, h2, h3, boundaryAfter]
+
+theorem matchNumber_dec (cc : CharCfg) {a b : List Char} (hne : a ≠ []) (ha : AllDigits cc a)
+    (hnb : b ≠ []) (hb : AllDigits cc b) :
+    matchNumber cc false (a ++ '.' :: b) = some ⟨a, some b⟩ := by
+  have h1 : (a ++ '.' :: b).takeWhile cc.isDigit = a := takeWhile_append_stop ha (dot_not_digit cc)
+  have h2 : (a ++ '.' :: b).dropWhile cc.isDigit = '.' :: b := dropWhile_append_stop ha (dot_not_digit cc)
+  have h3 : a.isEmpty = false := by cases a with
+    | nil => exact absurd rfl hne
+    | cons _ _ => rfl
+  have h4 : b.takeWhile cc.isDigit = b := takeWhile_all hb
+  have h5 : b.dropWhile cc.isDigit = [] := dropWhile_all hb
+  have h6 : b.isEmpty = false := by cases b with
+    | nil => exact absurd rfl hnb
+    | cons _ _ => rfl
+  simp [matchNumber, h1, h2, h3, h4, h5, h6, boundaryAfter]
+
+theorem ruleAt_digit (cfg : LexCfg) {d : Char} {r : List Char} (hd : cfg.chars.isDigit d = true) (pos : Nat)
+    {m : NumMatch} (hm : matchNumber cfg.chars false (d :: r) = some m) :
+    ruleAt cfg false (d :: r) pos = convNumber cfg m pos := by
+  have h1 : d ≠ '$' := digit_ne_nonword cfg.chars hd (by decide)
+  simp only [ruleAt, h1, if_false, hm]
+
+/-- the decimal value of a digit string: `digitsVal` reads it most significant digit first -/
+theorem digitsVal_snoc (cc : CharCfg) (ds : List Char) (d : Char) :
+    digitsVal cc (ds ++ [d]) = 10 * digitsVal cc ds + cc.digitVal d := by
+  simp [digitsVal, List.foldl_append]
+
+/-- **C16.int_literal**: a non-empty string of `\d` characters (any script), alone in a text, is one NUMBER
+token whose value is the integer the digits spell in base ten (`digitsVal`: `digitsVal_snoc`, value 0 for
+no digit) - unless it has more digits than the interpreter's `int()` accepts, then it is the lexical error
+`(text, 0)`. -/
+theorem int_literal (cfg : LexCfg) {ds : List Char} (hne : ds ≠ []) (hd : AllDigits cfg.chars ds) :
+    (cfg.maxDigits = 0 ∨ ds.length ≤ cfg.maxDigits →
+      lexAll cfg ds = .ok [⟨.number, .int (digitsVal cfg.chars ds), 0⟩]) ∧
+    (cfg.maxDigits ≠ 0 ∧ cfg.maxDigits < ds.length → lexAll cfg ds = .error (.lexical ds 0)) := by
+  cases ds with
+  | nil => exact absurd rfl hne
+  | cons d r =>
+      have hd0 : cfg.chars.isDigit d = true := hd d (by simp)
+      have hi : isIgnored d = false := word_not_ignored cfg.chars (cfg.chars.digit_word d hd0)
+      have hr := ruleAt_digit cfg hd0 0 (matchNumber_int cfg.chars hne hd)
+      simp only [List.length_cons]
+      constructor
+      · intro hlim
+        apply lexAll_single cfg hi
+        rw [hr]
+        have : (cfg.maxDigits != 0 && decide (cfg.maxDigits < r.length + 1)) = false := by
+          rcases hlim with h | h
+          · simp [h]
+          · simp only [Bool.and_eq_false_iff, decide_eq_false_iff_not]; right; omega
+        simp only [convNumber, this, Bool.false_eq_true, if_false, NumMatch.len, List.length_cons]
+      · intro hlim
+        apply lexAll_error cfg hi
+        rw [hr]
+        have : (cfg.maxDigits != 0 && decide (cfg.maxDigits < r.length + 1)) = true := by
+          simp [hlim.1, hlim.2]
+        simp only [convNumber, this, if_true, List.length_cons]
+
+/-- value of an ASCII decimal text `ddd.ddd`: `(n, k)` stands for the rational `n / 10^k` -/
+def decimalOf (text : List Char) : Nat × Nat :=
+  let ip := text.takeWhile (fun c => c != '.')
+  let fp := (text.dropWhile (fun c => c != '.')).drop 1
+  ((ip ++ fp).foldl (fun a d => 10 * a + (d.toNat - 48)) 0, fp.length)
+
+theorem asciiDigit_spec {v : Nat} (h : v < 10) :
+    (Char.ofNat (48 + v)).toNat - 48 = v ∧ (Char.ofNat (48 + v) != '.') = true := by
+  have : v = 0 ∨ v = 1 ∨ v = 2 ∨ v = 3 ∨ v = 4 ∨ v = 5 ∨ v = 6 ∨ v = 7 ∨ v = 8 ∨ v = 9 := by omega
+  rcases this with h | h | h | h | h | h | h | h | h | h <;> subst h <;> decide
+
+theorem foldl_asciiDigits (cc : CharCfg) : ∀ (ds : List Char) (acc : Nat), AllDigits cc ds →
+    (asciiDigits cc ds).foldl (fun a d => 10 * a + (d.toNat - 48)) acc = ds.foldl (fun a d => 10 * a + cc.digitVal d) acc
+  | [], _, _ => rfl
+  | d :: ds, acc, h => by
+      have hd := (asciiDigit_spec (cc.digit_lt d (h d (by simp)))).1
+      simp only [asciiDigits, List.map_cons, List.foldl_cons, hd]
+      exact foldl_asciiDigits cc ds _ (fun x hx => h x (by simp [hx]))
+
+theorem decimalOf_ascii (cc : CharCfg) {a b : List Char} (ha : AllDigits cc a) (hb : AllDigits cc b) :
+    decimalOf (asciiDigits cc a ++ '.' :: asciiDigits cc b) = (digitsVal cc (a ++ b), b.length) := by
+  have hp : ∀ c ∈ asciiDigits cc a, (fun c => c != '.') c = true := by
+    intro c hc
+    simp only [asciiDigits, List.mem_map] at hc
+    obtain ⟨d, hd, rfl⟩ := hc
+    exact (asciiDigit_spec (cc.digit_lt d (ha d hd))).2
+  have hx : (fun c : Char => c != '.') '.' = false := by decide
+  have h1 : (asciiDigits cc a ++ '.' :: asciiDigits cc b).takeWhile (fun c => c != '.') = asciiDigits cc a :=
+    takeWhile_append_stop hp hx
+  have h2 : (asciiDigits cc a ++ '.' :: asciiDigits cc b).dropWhile (fun c => c != '.') = '.' :: asciiDigits cc b :=
+    dropWhile_append_stop hp hx
+  simp only [decimalOf, h1, h2, List.drop_succ_cons, List.drop_zero, List.foldl_append, digitsVal]
+  rw [foldl_asciiDigits cc a 0 ha, foldl_asciiDigits cc b _ hb]
+  simp [asciiDigits]
+
+/-- the text a NUMBER match covers -/
+def numText (m : NumMatch) : List Char :=
+  match m.frac with
+  | some d2 => m.int ++ '.' :: d2
+  | none => m.int
+
+/-- **C16.dot_means_float**: (1) digits `.` digits, alone in a text, is one NUMBER token holding a float, kept as
+the decimal text with ASCII digits; (2) that text denotes the rational `digitsVal (a ++ b) / 10 ^ b.length`
+(which the platform's `float()` rounds); (3) for every NUMBER match the token holds a float iff the matched
+text contains a dot, and an integer otherwise. -/
+theorem dot_means_float (cfg : LexCfg) :
+    (∀ a b, a ≠ [] → b ≠ [] → AllDigits cfg.chars a → AllDigits cfg.chars b →
+      lexAll cfg (a ++ '.' :: b) =
+        .ok [⟨.number, .flt (asciiDigits cfg.chars a ++ '.' :: asciiDigits cfg.chars b), 0⟩] ∧
+      decimalOf (asciiDigits cfg.chars a ++ '.' :: asciiDigits cfg.chars b) =
+        (digitsVal cfg.chars (a ++ b), b.length)) ∧
+    (∀ pw rest m pos t len, matchNumber cfg.chars pw rest = some m → convNumber cfg m pos = .tok t len →
+      ('.' ∈ numText m ↔ ∃ l, t.val = .flt l) ∧ ('.' ∉ numText m ↔ t.val = .int (digitsVal cfg.chars m.int))) := by
+  constructor
+  · intro a b hna hnb ha hb
+    refine ⟨?_, decimalOf_ascii cfg.chars ha hb⟩
+    cases a with
+    | nil => exact absurd rfl hna
+    | cons d r =>
+        have hd0 : cfg.chars.isDigit d = true := ha d (by simp)
+        have hi : isIgnored d = false := word_not_ignored cfg.chars (cfg.chars.digit_word d hd0)
+        have hm : matchNumber cfg.chars false (d :: (r ++ '.' :: b)) = some ⟨d :: r, some b⟩ :=
+          matchNumber_dec cfg.chars hna ha hnb hb
+        have hr := ruleAt_digit cfg hd0 0 hm
+        show lexAll cfg (d :: (r ++ '.' :: b)) = _
+        apply lexAll_single cfg hi
+        rw [hr]
+        simp only [convNumber, NumMatch.len, List.length_cons, List.length_append, Matched.tok.injEq, true_and]
+        omega
+  · intro pw rest m pos t len hm hc
+    have hint : '.' ∉ m.int := by
+      intro hmem
+      have : m.int = rest.takeWhile cfg.chars.isDigit := by
+        simp only [matchNumber] at hm
+        split at hm
+        · cases hm
+        · split at hm
+          · cases hm
+          · split at hm
+            · cases hm; rfl
+            · split at hm
+              · cases hm; rfl
+              · cases hm
+      rw [this] at hmem
+      have := mem_takeWhile_true hmem
+      rw [dot_not_digit] at this
+      cases this
+    cases hf : m.frac with
+    | some d2 =>
+        simp only [convNumber, hf, Matched.tok.injEq] at hc
+        obtain ⟨rfl, _⟩ := hc
+        simp [numText, hf]
+    | none =>
+        simp only [convNumber, hf] at hc
+        split at hc
+        · cases hc
+        · simp only [Matched.tok.injEq] at hc
+          obtain ⟨rfl, _⟩ := hc
+          simp [numText, hf, hint]
+
+/-! ## C16.keywords, C16.func_before_keyword -/
+
+/-- identifier-shaped: `c :: r` with `c` a `\w` character that is not a `\d`, `r` all `\w` characters -/
+def IdentShaped (cc : CharCfg) (c : Char) (r : List Char) : Prop :=
+  cc.isWord c = true ∧ cc.isDigit c = false ∧ ∀ x ∈ r, cc.isWord x = true
+
+theorem ident_prelude (cfg : LexCfg) {c : Char} {r : List Char} (h : IdentShaped cfg.chars c r) (tail : List Char) :
+    c ≠ '$' ∧ isIgnored c = false ∧ matchNumber cfg.chars false (c :: (r ++ tail)) = none ∧
+    identStart cfg.chars c = true := by
+  obtain ⟨hw, hd, _⟩ := h
+  refine ⟨word_ne_of_nonword cfg.chars hw (by decide), word_not_ignored cfg.chars hw, ?_, ?_⟩
+  · simp [matchNumber, List.takeWhile_cons, hd]
+  · simp [identStart, hw, hd]
+
+theorem ruleAt_word (cfg : LexCfg) {c : Char} {r : List Char} (h : IdentShaped cfg.chars c r)
+    (hdu : startsDunder (c :: r) = false) :
+    ruleAt cfg false (c :: r) 0 = .tok (classifyKeyword cfg (c :: r) 0) (r.length + 1) := by
+  obtain ⟨h1, _, h3, h4⟩ := ident_prelude cfg h []
+  simp only [List.append_nil] at h3
+  have hall : ∀ x ∈ c :: r, cfg.chars.isWord x = true := by
+    intro x hx
+    rcases List.mem_cons.mp hx with rfl | hx
+    · exact h.1
+    · exact h.2.2 x hx
+  have hf : matchFunc cfg.chars false (c :: r) = none := by
+    simp [matchFunc, h4, dropWhile_all hall]
+  have hk : matchKeyword cfg.chars false (c :: r) = some (c :: r) := by
+    simp [matchKeyword, hdu, h4, takeWhile_all hall]
+  simp only [ruleAt, h1, if_false, h3, hf, hk, List.length_cons]
+
+/-- **C16.keywords**: an identifier-shaped word alone in a text. Not starting with `__`: an operator word of the
+table is that operator's token; otherwise `true` / `false` / `null` are the three constants and any other
+word denotes its own text. Starting with `__` (and no operator symbol of the table being a prefix of it):
+the lexical error `('_', 0)`. -/
+theorem keywords (cfg : LexCfg) {c : Char} {r : List Char} (h : IdentShaped cfg.chars c r) :
+    (startsDunder (c :: r) = false →
+      (c :: r ∈ cfg.opWords → lexAll cfg (c :: r) = .ok [⟨.op (c :: r), .text (c :: r), 0⟩]) ∧
+      (c :: r ∉ cfg.opWords →
+        (c :: r = kwTrue → lexAll cfg (c :: r) = .ok [⟨.true_, .none, 0⟩]) ∧
+        (c :: r = kwFalse → lexAll cfg (c :: r) = .ok [⟨.false_, .none, 0⟩]) ∧
+        (c :: r = kwNull → lexAll cfg (c :: r) = .ok [⟨.null_, .none, 0⟩]) ∧
+        (c :: r ≠ kwTrue → c :: r ≠ kwFalse → c :: r ≠ kwNull →
+          lexAll cfg (c :: r) = .ok [⟨.keyword, .text (c :: r), 0⟩]))) ∧
+    (startsDunder (c :: r) = true → firstStrRule cfg.rules (c :: r) = none →
+      lexAll cfg (c :: r) = .error (.lexical ['_'] 0)) := by
+  obtain ⟨h1, hi, h3, h4⟩ := ident_prelude cfg h []
+  simp only [List.append_nil] at h3
+  constructor
+  · intro hdu
+    have hl := lexAll_single cfg hi (ruleAt_word cfg h hdu)
+    refine ⟨fun ho => ?_, fun ho => ⟨fun e => ?_, fun e => ?_, fun e => ?_, fun e1 e2 e3 => ?_⟩⟩
+    · rw [hl]; simp [classifyKeyword, ho]
+    · rw [hl, e]; rw [e] at ho; simp [classifyKeyword, ho]
+    · rw [hl, e]; rw [e] at ho; have hne : kwFalse ≠ kwTrue := by decide
+      simp [classifyKeyword, ho, hne]
+    · rw [hl, e]; rw [e] at ho; have hne : kwNull ≠ kwTrue := by decide
+      have hne2 : kwNull ≠ kwFalse := by decide
+      simp [classifyKeyword, ho, hne, hne2]
+    · rw [hl]; simp [classifyKeyword, ho, e1, e2, e3]
+  · intro hdu hno
+    apply lexAll_error cfg hi
+    have hc : c = '_' := by
+      cases r with
+      | nil => simp [startsDunder] at hdu
+      | cons b r' => simp only [startsDunder, Bool.and_eq_true, beq_iff_eq] at hdu; exact hdu.1
+    subst hc
+    have hall : ∀ x ∈ '_' :: r, cfg.chars.isWord x = true := by
+      intro x hx
+      rcases List.mem_cons.mp hx with rfl | hx
+      · exact h.1
+      · exact h.2.2 x hx
+    have hf : matchFunc cfg.chars false ('_' :: r) = none := by
+      simp [matchFunc, h4, dropWhile_all hall]
+    have hk : matchKeyword cfg.chars false ('_' :: r) = none := by
+      simp [matchKeyword, hdu]
+    have hq1 : (('_' : Char) = '\'' || ('_' : Char) = '"') = false := by decide
+    have hq2 : ('_' : Char) ≠ '`' := by decide
+    have hlit : isLiteral '_' = false := by decide
+    simp only [ruleAt, h1, if_false, h3, hf, hk, hq1, hq2, Bool.false_eq_true, symbolAt, hno, hlit]
+
+/-- **C16.func_before_keyword**: an identifier-shaped word directly followed by `(` is a call token with the
+word as its value - whatever the word: an operator word (`and(`), `true(`, or one starting with `__`. -/
+theorem func_before_keyword (cfg : LexCfg) {c : Char} {r : List Char} (h : IdentShaped cfg.chars c r)
+    (rest : List Char) :
+    nextTok cfg (c :: (r ++ '(' :: rest)) 0 = .tok ⟨.func, .text (c :: r), 0⟩ (r.length + 2) := by
+  obtain ⟨h1, hi, h3, h4⟩ := ident_prelude cfg h ('(' :: rest)
+  have hall : ∀ x ∈ c :: r, cfg.chars.isWord x = true := by
+    intro x hx
+    rcases List.mem_cons.mp hx with rfl | hx
+    · exact h.1
+    · exact h.2.2 x hx
+  have hp : cfg.chars.isWord '(' = false := cfg.chars.nonword '(' (by decide)
+  have ht : (c :: (r ++ '(' :: rest)).takeWhile cfg.chars.isWord = c :: r :=
+    takeWhile_append_stop (l := c :: r) hall hp
+  have hd : (c :: (r ++ '(' :: rest)).dropWhile cfg.chars.isWord = '(' :: rest :=
+    dropWhile_append_stop (l := c :: r) hall hp
+  have hf : matchFunc cfg.chars false (c :: (r ++ '(' :: rest)) = some (c :: r) := by
+    simp only [matchFunc, h4, Bool.not_false, Bool.and_self, if_true, hd, ht]
+  simp only [nextTok, prevWord, List.drop_zero, scanTok, hi, Bool.false_eq_true, if_false, ruleAt, h1, h3, hf,
+    List.length_cons]
+  simp
+
+example (cfg : LexCfg) : IdentShaped cfg.chars '_' ['_'] :=
+  ⟨cfg.chars.underscore_word, cfg.chars.underscore_nondigit, by
+    intro x hx; simp at hx; subst hx; exact cfg.chars.underscore_word⟩
+
 end Yaql.Props.C16
